@@ -194,3 +194,37 @@ CLAIMS = {
         level_note=STATIC_BASE + "os.remove/close raising midway and distinctness of tempfile names not decided.",
         technique="static analysis: all-paths typestate on __exit__, value-flow of acquisitions, registry coverage"),
 }
+
+
+# Clauses added by the shared analyses of the later seeding rounds (sa/rules/oneshot.py, memo.py, ownership.py) and by the
+# false-alarm campaign; appended to the claim text of the properties whose rule sets contain them.
+_DERIVED = (" Also decided on all paths of every public operation: derived state (any field other than the primary state that is "
+            "written outside the constructor or built from primary state, and read) is re-assigned or cleared on every path that "
+            "mutates the primary state.")
+_NOCLASS = " State lives on the instance: no mutable class-level attribute is mutated through self or the class."
+_ONESHOT = " One-shot inputs (parameters annotated Iterable/Iterator/Generator) are traversed at most once on every path."
+EXTRA = {
+    "C01": _NOCLASS + " The feeder leaves its send loop only under the stop event.",
+    "C02": " The helper threads' context covers the whole iteration of both factory consumers; the bound the constructor stores is "
+           "the one the guards compare with.",
+    "C05": _NOCLASS + " The consumer loops have no exit other than the completion test.",
+    "C06": _NOCLASS + " Look-ups consult the dictionary on every path.",
+    "C07": _NOCLASS + " Look-ups consult the dictionary on every path.",
+    "C08": _DERIVED + _NOCLASS + " A value stored into an end field or a link is a node (constructed, parameter, or read from a link).",
+    "C09": _NOCLASS + " The structures own the arrays they mutate (constructor arguments are copied or documented as adopted); "
+           "operations on an empty structure raise KeyError/IndexError rather than returning.",
+    "C10": _NOCLASS + " The constructor offers every span to its de-duplicating scan in input order.",
+    "C11": "",
+    "C12": " The pending-changes table is a list owned by the object.",
+    "C13": " What the record classes cache about a class is keyed by that class.",
+    "C14": _NOCLASS + " No closed handle stays cached; a writer that re-opens its file appends.",
+    "C15": _DERIVED + _NOCLASS,
+    "C16": _DERIVED + _NOCLASS + " Membership and construction use the same relation.",
+    "C18": " A local alias of the handle taken before the re-open check and used after it is reported.",
+    "C19": " compare_pos_in_iterables compares multisets on a private copy; window scans examine every offset; "
+           "Batcher.__len__ is the ceiling of n / batch_size.",
+    "C20": _NOCLASS,
+}
+for _pid, _extra in EXTRA.items():
+    if _extra and _extra.strip() not in CLAIMS[_pid]["text"]:
+        CLAIMS[_pid]["text"] = CLAIMS[_pid]["text"].rstrip() + _extra
